@@ -68,7 +68,11 @@ out["provenance"]["audit_arch"] = "/usr/include/linux/audit.h via gcc"
 consts = ["SECCOMP_SET_MODE_STRICT", "SECCOMP_SET_MODE_FILTER", "SECCOMP_RET_KILL_THREAD", "SECCOMP_RET_KILL_PROCESS",
           "SECCOMP_RET_TRAP", "SECCOMP_RET_ERRNO", "SECCOMP_RET_TRACE", "SECCOMP_RET_LOG", "SECCOMP_RET_ALLOW",
           "SECCOMP_RET_USER_NOTIF", "SECCOMP_FILTER_FLAG_TSYNC", "SECCOMP_FILTER_FLAG_LOG", "PR_SET_NO_NEW_PRIVS",
-          "EPERM", "ENOSYS", "__X32_SYSCALL_BIT"]
+          "EPERM", "ENOSYS", "__X32_SYSCALL_BIT",
+          "SECCOMP_FILTER_FLAG_SPEC_ALLOW", "SECCOMP_FILTER_FLAG_NEW_LISTENER", "SECCOMP_FILTER_FLAG_TSYNC_ESRCH",
+          "SECCOMP_FILTER_FLAG_WAIT_KILLABLE_RECV", "SECCOMP_RET_KILL", "SECCOMP_RET_ACTION_FULL", "SECCOMP_RET_ACTION",
+          "SECCOMP_RET_DATA", "SECCOMP_MODE_DISABLED", "SECCOMP_MODE_STRICT", "SECCOMP_MODE_FILTER",
+          "SECCOMP_GET_ACTION_AVAIL", "SECCOMP_GET_NOTIF_SIZES", "PR_GET_NO_NEW_PRIVS", "PR_SET_SECCOMP", "PR_GET_SECCOMP"]
 src = '#include <stdio.h>\n#include <errno.h>\n#include <linux/seccomp.h>\n#include <linux/prctl.h>\n#include <asm/unistd.h>\nint main(){\n' + ''.join(
     'printf("%s %%llu\\n",(unsigned long long)(unsigned)(%s));\n' % (n, n) for n in consts) + 'return 0;}\n'
 open('/tmp/_cc.c', 'w').write(src)
